@@ -2041,6 +2041,45 @@ fn main() {
             println!("first_bad={}", first);
             db.hold_background_for_verif(false);
         }
+        // sstables_descriptor : three disjoint key ranges are flushed in descending key order (x..z, m..p, a..c: they settle in one deeper
+        // level, the newest table holding the smallest keys), one more table stays in level 0. The SSTables descriptor must list every
+        // table once, under its level, and the tables of a level >= 1 in key order
+        "sstables_descriptor" => {
+            use raindb::WriteOptions;
+            let mut o = raindb::DbOptions::with_memory_env();
+            o.db_path = "db".to_string();
+            o.create_if_missing = true;
+            let db = raindb::DB::open(o.clone()).expect("open");
+            for group in [["x", "y", "z"], ["m", "n", "p"], ["a", "b", "c"]] {
+                for k in group { db.put(WriteOptions::default(), k.as_bytes().to_vec(), b"v".to_vec()).unwrap(); }
+                let _ = db.flush_for_verif();
+            }
+            let text = db.get_descriptor(raindb::db::DatabaseDescriptor::SSTables).unwrap_or_default();
+            let (mut level, mut problems, mut listed) = (0usize, vec![], 0usize);
+            let mut prev_start: Option<String> = None;
+            for line in text.lines() {
+                if let Some(rest) = line.strip_prefix("--- Level ") {
+                    level = rest.trim_end_matches(" ---").trim().parse().unwrap_or(99);
+                    prev_start = None;
+                    continue;
+                }
+                if let Some(i) = line.find('[') {
+                    listed += 1;
+                    let start = line[i + 1..].split(" @ ").next().unwrap_or("").to_string();
+                    if level >= 1 {
+                        if let Some(p) = &prev_start {
+                            if *p >= start { problems.push(format!("level {}: table starting at {:?} is listed after the table starting at {:?}", level, start, p)); }
+                        }
+                    }
+                    prev_start = Some(start);
+                }
+            }
+            let on_disk = v::table_numbers(&o).len();
+            if listed != on_disk { problems.push(format!("{} tables listed, {} table files", listed, on_disk)); }
+            println!("listed={}", listed);
+            println!("problems={}", problems.len());
+            println!("first_problem={}", problems.first().cloned().unwrap_or_default());
+        }
         // lru_cache <capacity> op:key:value ... : the operations (insert / get / remove) on a real LRUCache<u64, u64>, next to an ordered
         // list (most recently used first) as reference: what every insert / get observed, len() at the end, and the values every
         // handle still reads at the end
